@@ -105,6 +105,8 @@ func (rotEngine) execute(sc *Scenario) *Outcome {
 	// 1. serial parse, all accessors
 	serial := parseSerialDump(text)
 	out.Log = append(out.Log, "serial "+serial.hash())
+	out.measure("texts", fnv(text))
+	out.measure("parse_results", serial.hash())
 	if serial.Panic != "" {
 		out.Verdicts = append(out.Verdicts, mkVerdict("C06", "panic", serial.Site, "serial parse: "+serial.Panic+" on "+fmt.Sprintf("%q", shortText(text, 200)), 0))
 	} else {
